@@ -99,10 +99,10 @@ JOBS.update({
     "C06": dict(level="fault_enumeration", rule=PROCS_RULE,
         jobs=procs_jobs("C06", ["mix=res,faults=1", "mix=pool,faults=1", "mix=buf,faults=1", "mix=oq,faults=1", "mix=pq,faults=1", "mix=cond,faults=1", "mix=all,faults=2"], 400000, 16000000, crowd_mix="mix=all,faults=1,crowd=1", sweep_mixes=["mix=res", "mix=pool", "mix=buf", "mix=oq", "mix=pq"], churn=40000),
         wall_quick=55, wall_thorough=1200,
-        assumptions=["judges wake-ups, not completion of a multi-step get/put (a woken waiter that finds nothing re-queues with a new entry time by design)",
+        assumptions=["judges wake-ups; a process that waits again inside one call (served in part, or robbed of its grant) must keep the waiting-since time of that call",
                      "waiters of equal priority that started waiting in the same instant are ranked by their order of arrival at the list (harness stamps: at most one process enters a given list per event); waiters whose priority was changed, or that ran, in the event of the grant are not compared",
                      "conditions: each waiter has its own predicate, so what is judged is the order among the waiters that one signal (explicit or forwarded) finds satisfied: those that then resume with success in that instant must do so by (priority, waiting-since), unless a priority was set in between; one pass of the library over the waiters is recognised as a run of predicate evaluations with no harness step in between",
-                     "a waiter that stays in a list without running must keep its waiting-since time, and whoever enters a list does so with the current time",
+                     "a waiter that stays in a list without running must keep its waiting-since time, and whoever enters a list does so with the time at which its call began to wait",
                      "that the waiting-list comparator is a heap order at all is certified by C02 (hheap engine, comparator taken from a freshly initialised guard)"]),
     "C07": dict(level="fault_enumeration", rule=PROCS_RULE,
         jobs=procs_jobs("C07", ["mix=pool,faults=0", "mix=pool,faults=1", "mix=pool,faults=2", "mix=all,faults=2"], 900000, 24000000, crowd_mix="mix=pool,faults=2,crowd=1", churn=10000),
